@@ -14,7 +14,7 @@ RULE = ("environments = DIP text with 3-7 typed nodes (float/int with units of 7
         "dimension, made well-formed by inserting parentheses, rendered by the Lean renderer (mandatory blanks around binary "
         "operators, random optional blanks) and solved by the real NumericalSolver/LogicalSolver, directly and through DIP text "
         "(x float = (\"expr\") unit, c bool = (\"expr\"), @case (\"expr\")); comparison operands are placed at, within 0.4e-6 of, "
-        "3e-6 off and far off equality, in other units of the same dimension; templates = random text with {{ref}[slice]:fmt} holes; the custom $units x, y, w are defined with different magnitudes from environment to environment while the same literal texts recur "
+        "3e-6 off and far off equality, in other units of the same dimension; templates = random text with {{ref}[slice]:fmt} holes (the text the model's solveTemplate produces - hole texts from Python's format/str for the holes the MODEL finds - is compared with the text of the code), and template TEXTS with near-miss holes (blank between the braces, missing / doubled closing brace, empty or unknown reference, reference without '?', two slices in a row, non-matching format, '{' directly before a hole, unfinished hole at the end) on which the code and the model's solveTemplate must agree; the custom $units x, y, w are defined with different magnitudes from environment to environment while the same literal texts recur "
         "(one process, many texts); nodes of the environments are modified after their definition; integer nodes of one dimension in different units (m, km, custom) whose "
         "values are no whole multiples of each other, compared with each other; int nodes defined by expressions (the nearest integer of the exact "
         "result, with expressions that land a few ulp beside an integer); definedness tests of nodes that are only declared / defined as none "
@@ -38,11 +38,13 @@ ASSUMPTIONS = [
     "an int node defined by an expression is judged when the exact result is at least 0.01 away from a half-integer and below 1e9",
     "malformed strings (outside the three grammars) are compared for information only: rejecting them is property C01",
     "format()/str() of Python are parameters of the template specification",
+    "template texts: malformed slices ([1:2:3], [1,,2]: ValueError inside the slice parser, also without a reference before them) are part of the near-miss texts; "
+    "near-miss texts slice arrays down to scalars or 2-d parts only (the empty range n:n, kept apart from the index n, is generated on str nodes)",
 ]
 EXPLANATION = ("theorems: every pass of the regenerated step tables reduces exactly the sub-trees of its priority level, left to right "
                "(generic, by induction on the tree); hence the token machine evaluates every well-formed numerical / logical tree to its "
                "tree value; unit-carrying evaluation equals evaluation on SI values over any field; addition across dimensions is refused; "
-               "template scanning inverts rendering")
+               "template scanning inverts rendering, slices included, and the text produced is the concatenation of the copied text and the formatted holes")
 
 GEN = core.LEAN / "SciVerif" / "Generated" / "C18Tables.lean"
 
@@ -879,11 +881,14 @@ def tpl_value(E, ref, sl):
     else:
         v = E.env.nodes.query(name)[0].value.value
     if sl:
+        # an entry (n, n) is the index n; (a, b) a range; (n, n, "range") the empty range n:n (kept apart by the model's scan)
+        def ix(e):
+            return e[0] if (len(e) == 2 and e[0] == e[1] and e[0] is not None) else slice(e[0], e[1])
         if isinstance(v, str):
-            (a, b), = sl
-            return v[a] if a == b and a is not None else v[slice(a, b)]
+            e, = sl
+            return v[ix(e)]
         arr = np.array(v)
-        idx = tuple(a if (a == b and a is not None) else slice(a, b) for a, b in sl)
+        idx = tuple(ix(e) for e in sl)
         v = arr[idx]
         if getattr(v, "shape", None) == ():
             v = v.item()
@@ -943,6 +948,105 @@ def render_tpl(pieces):
     return out
 
 
+def tpl_hole_out(E, path, sl, fm):
+    """What Python gives for one hole (reference, slice entries, format): the characters, None = raises."""
+    import re
+    try:
+        if not re.fullmatch(r"\?[A-Za-z_][A-Za-z0-9_.]*", path):
+            # not a plain query of a node of the text ('mat' without '?' is a file import, '?f ' no node name):
+            # whether such a request is served at all is the environment's business (C17) - ask it
+            with warnings.catch_warnings():
+                warnings.simplefilter("ignore")
+                E.env.request(path, count=1)
+        v = tpl_value(E, path, [tuple(x) for x in sl] if sl else None)
+        return ("{0" + fm + "}").format(v) if fm else str(v)
+    except Exception:
+        return None
+
+
+def tpl_model_output(ctx, cases):
+    """cases = [(E, text, scan answer of the driver)].  Second phase of the tie: the model's solveTemplate
+    (scan + assembly) with the hole texts Python produces for the holes THE MODEL found; returns the
+    produced text, "err" (raises) or None (driver error)."""
+    reqs, idx = [], []
+    for i, (E, text, r) in enumerate(cases):
+        if "ok" not in r:
+            continue
+        outs = [tpl_hole_out(E, p[1], p[2], p[3]) for p in r["ok"] if p[0] == "h"]
+        reqs.append({"p": "C18", "k": "tplo", "text": text, "outs": outs})
+        idx.append(i)
+    res = [None] * len(cases)
+    for i, r in zip(idx, ctx.driver.ask_many(reqs)):
+        if "ok" in r:
+            res[i] = "err" if r["ok"]["out"] is None else r["ok"]["out"]
+    return res
+
+
+def gen_tpl_nearmiss(rng, E):
+    """Template TEXT (not rendered from pieces): holes and near-miss holes - a blank between the braces,
+    missing or doubled closing brace, empty / missing reference, two slices in a row, a format that does
+    not match, a '{' directly before a hole, an unfinished hole at the end of the text.  Slices are well
+    formed for the node they follow."""
+    out = ""
+    for _ in range(rng.randint(1, 5)):
+        r = rng.random()
+        if r < 0.3:
+            out += rng.choice(["x = ", " ", "{", "}", "{ ", "a{b", "\n", "{}", "{{}", "[0]", ":d", "{{", "{[1:2:3]", "{[1,]}", "{ [1,,2]", "{[:,1]", "[1:2:3]"])
+            continue
+        cands = [(n, kind) for n, (kind, val, unit, d) in E.nodes.items()]
+        n, kind = rng.choice(cands)
+        slices = [""]
+        if n == "v":
+            slices = ["", "[0]", "[1]", "[2]", "[0][1]"]      # scalars (whether a 1-d part prints as list or array is not the scanner's business)
+        elif n == "mat":
+            slices = ["", "[0,1]", "[1,2]", "[:,1:]", "[0,1][1,0]"]
+        elif kind == "str":
+            slices = ["", "[0]", "[1:]", "[:2]", "[0:2]", "[5:]", "[1:1]", "[0:0]", "[1]"]
+        fmts = {"float": ["", ":.3e", ":.2f", ":e", ":d", ":10.4f"], "int": ["", ":d", ":05d", ":f", ":s"],
+                "str": ["", ":s", ":10s", ":d"], "bool": ["", ":d", ":s"]}.get(kind, ["", ":.2e", ":s"])
+        out += rng.choice(["{{", "{{", "{{", "{ {", "{  {", "{", "{{{"])
+        out += rng.choice(["?" + n, "?" + n, "?" + n, "?" + n, "", "?zz", n])
+        out += rng.choice(["}", "}", "}", "}", "", " }"])
+        out += rng.choice(slices) if rng.random() < 0.9 else rng.choice(["[1:2:3]", "[1,,2]", "[,]", "[0][::]", "[0,]", "[]", "[1:2"])
+        out += rng.choice(fmts + [":5", ":.2f:d", ":x", " :d"]) if rng.random() < 0.6 else ""
+        out += rng.choice(["}", "}", "}", "}", "}", "", " }", "}}"])
+    return out
+
+
+def tpl_text_stream(ctx, envs, count):
+    """Real TemplateSolver.solve against the model's solveTemplate on template TEXTS with near-miss holes."""
+    from scinumtools.dip.solvers import TemplateSolver
+    rng = ctx.rng
+    cases = []
+    for _ in range(count):
+        E, units = rng.choice(envs)
+        cases.append((E, gen_tpl_nearmiss(rng, E)))
+    E0 = envs[0][0]
+    for t in ["{ {?name}}", "{{?name}", "{{?name}[1:][:2]}", "{{{?name}}", "{{}", "{{?name}:5}", "{{?name} }",
+              "{{?name}[1:2:3]}", "{{?name}[1][,]}", "{[1:2:3]", "{ [1:2:3]", "{{}[1,,2]}", "a{[,]", "{{?name}[1:1]}"]:
+        cases.append((E0, t))
+    scans = ctx.driver.ask_many([{"p": "C18", "k": "tpl", "text": t} for _, t in cases])
+    outs = tpl_model_output(ctx, [(E, t, r) for (E, t), r in zip(cases, scans)])
+    for (E, text), r, mod in zip(cases, scans, outs):
+        ctx.count("tpltext.cases")
+        replay = {"stream": "tpltext", "env": E.text, "text": text}
+        try:
+            with warnings.catch_warnings():
+                warnings.simplefilter("ignore")
+                imp = TemplateSolver(E.env).solve(text)
+        except Exception:
+            imp = "err"
+        holes = [p for p in r.get("ok", []) if p[0] == "h"]
+        ctx.count("tpltext.holes", len(holes))
+        ctx.count("tpltext.raises" if imp == "err" else "tpltext.text")
+        ctx.case([E.text, "tpltext", text], bool(holes), {"tpltext": text[:80]})
+        if mod is None:
+            ctx.disagreement("tpltext", replay, "driver error %s" % r)
+        elif imp != mod:
+            replay.update({"impl": imp, "model": mod})
+            ctx.disagreement("tpltext", replay, "TemplateSolver.solve(%r) = %r, model solveTemplate %r" % (text, imp, mod))
+
+
 def tpl_stream(ctx, envs, count):
     from scinumtools.dip.solvers import TemplateSolver
     rng = ctx.rng
@@ -955,7 +1059,8 @@ def tpl_stream(ctx, envs, count):
                        ["t", "\nArray:\n"], ["h", "?mat", [[None, None], [1, None]], None], ["t", "\n"]]))
     texts = [render_tpl(p) for _, p in cases]
     res = ctx.driver.ask_many([{"p": "C18", "k": "tpl", "text": t} for t in texts])
-    for (E, pieces), text, r in zip(cases, texts, res):
+    mouts = tpl_model_output(ctx, [(E, t, r) for (E, _), t, r in zip(cases, texts, res)])
+    for (E, pieces), text, r, mod in zip(cases, texts, res, mouts):
         ctx.count("tpl.cases")
         ctx.count("tpl.holes", sum(p[0] == "h" for p in pieces))
         nontriv = any(p[0] == "h" and (p[2] or p[3]) for p in pieces)
@@ -1001,6 +1106,9 @@ def tpl_stream(ctx, envs, count):
                 want.append([p[0], p[1]] if p[0] == "t" else [p[0], p[1], p[2], p[3]])
         if merged != want:
             ctx.disagreement("tpl", replay, "model scan %s, generated pieces %s" % (merged, want))
+        elif mod != imp:
+            # the text the model's solveTemplate produces (hole texts from Python's format/str) is the text of the code
+            ctx.disagreement("tpl", replay, "model solveTemplate gives %r, the code %r" % (mod, imp))
 
 
 # ------------------------------------------------------------------ histories of solver calls on one environment
@@ -1189,3 +1297,4 @@ def correspond(ctx: Ctx):
     tpl_stream(ctx, envs, n // 2)
     history_stream(ctx, tabs, envs, n // 10)
     malformed_stream(ctx, tabs, envs, n // 3)
+    tpl_text_stream(ctx, envs, n // 3)      # last: the streams above keep their random sequences
